@@ -540,7 +540,17 @@ def check_jump(ctx, label, rot_seed, c, B, cs, family, g):
     return fails
 
 
+PARTIAL = [
+    {"theorem": "exp_tp_partial", "missing": "first row of every partial sum of the exponential series is e0 (all N, all sizes); the limit statement for Matrix.exp and complete positivity of exp(L) (Lindblad's theorem) are not formalised - to_gate's CP/TP is checked per run on the implementation"},
+    {"theorem": "extract_j_of_rebuild_fixed_partial", "missing": "holds for the proposed patch calcJMatFixedCb (whole basis); for the coded calc_j_mat the clause is false (extract_rebuild_j_fails, calcJMat_coded_coef) - D12"},
+    {"theorem": "parts_sum_fixed_partial", "missing": "holds for the proposed patch and for generators of the form rebuild(H,J,K); with the coded calc_j_mat the clause is false (parts_sum_fails) - D12; surjectivity of rebuild onto Hermiticity-preserving generators not formalised"},
+    {"theorem": "gksl_action_hk / from_hk_row0", "missing": "stated for the exact complex matrix before _truncate_hs; the float truncation layer is modelled (truncateHs) and tied by the correspondence only; physical <=> (row0 = 0 and K PSD) is proved only as verdict wiring (isTp_iff) - 'K PSD <=> exp(tL) CP' is not proved"},
+    {"theorem": "jump_operators_gksl_fails", "missing": "negation witness only (D13): the generator built from jump operators is not the GKSL one as coded"},
+]
+
+
 def oracle(ctx, volume=1):
+    ctx.partial = PARTIAL
     g = ctx.npgen(21)
     rot_seed = ctx.seed * 1000 + 17
     reps = (3 if ctx.quick else 8) * volume
